@@ -456,10 +456,6 @@ func (f *File) Readdirnames(n int) ([]string, error) {
 		"n":    n,
 	})
 
-	if !f.info.IsDir() {
-		return []string{}, config.ErrIsFile
-	}
-
 	dirs, err := f.Readdir(n)
 	if err != nil {
 		return []string{}, err
@@ -480,6 +476,9 @@ func (f *File) Read(p []byte) (n int, err error) {
 		"p":    len(p),
 	})
 
+	f.ioLock.Lock()
+	defer f.ioLock.Unlock()
+
 	if !f.flags.Read {
 		return -1, os.ErrPermission
 	}
@@ -491,9 +490,6 @@ func (f *File) Read(p []byte) (n int, err error) {
 	if f.info.IsDir() {
 		return -1, config.ErrIsDirectory
 	}
-
-	f.ioLock.Lock()
-	defer f.ioLock.Unlock()
 
 	if f.writeBuf != nil {
 		return f.writeBuf.Read(p)
@@ -561,10 +557,6 @@ func (f *File) ReadAt(p []byte, off int64) (n int, err error) {
 		return 0, nil
 	}
 
-	if f.info.IsDir() {
-		return -1, config.ErrIsDirectory
-	}
-
 	if _, err := f.Seek(off, io.SeekStart); err != nil {
 		return -1, err
 	}
@@ -593,6 +585,9 @@ func (f *File) Write(p []byte) (n int, err error) {
 		"p":    len(p),
 	})
 
+	f.ioLock.Lock()
+	defer f.ioLock.Unlock()
+
 	if f.info.IsDir() {
 		return -1, config.ErrIsDirectory
 	}
@@ -600,9 +595,6 @@ func (f *File) Write(p []byte) (n int, err error) {
 	if !f.flags.Write {
 		return -1, os.ErrPermission
 	}
-
-	f.ioLock.Lock()
-	defer f.ioLock.Unlock()
 
 	if err := f.enterWriteMode(); err != nil {
 		return -1, err
@@ -623,6 +615,9 @@ func (f *File) WriteAt(p []byte, off int64) (n int, err error) {
 		"off":  off,
 	})
 
+	f.ioLock.Lock()
+	defer f.ioLock.Unlock()
+
 	if f.info.IsDir() {
 		return -1, config.ErrIsDirectory
 	}
@@ -630,9 +625,6 @@ func (f *File) WriteAt(p []byte, off int64) (n int, err error) {
 	if !f.flags.Write {
 		return -1, os.ErrPermission
 	}
-
-	f.ioLock.Lock()
-	defer f.ioLock.Unlock()
 
 	if err := f.enterWriteMode(); err != nil {
 		return -1, err
@@ -651,6 +643,9 @@ func (f *File) WriteString(s string) (ret int, err error) {
 		"s":    len(s),
 	})
 
+	f.ioLock.Lock()
+	defer f.ioLock.Unlock()
+
 	if f.info.IsDir() {
 		return -1, config.ErrIsDirectory
 	}
@@ -658,9 +653,6 @@ func (f *File) WriteString(s string) (ret int, err error) {
 	if !f.flags.Write {
 		return -1, os.ErrPermission
 	}
-
-	f.ioLock.Lock()
-	defer f.ioLock.Unlock()
 
 	if err := f.enterWriteMode(); err != nil {
 		return -1, err
@@ -675,6 +667,9 @@ func (f *File) Truncate(size int64) error {
 		"size": size,
 	})
 
+	f.ioLock.Lock()
+	defer f.ioLock.Unlock()
+
 	if f.info.IsDir() {
 		return config.ErrIsDirectory
 	}
@@ -682,9 +677,6 @@ func (f *File) Truncate(size int64) error {
 	if !f.flags.Write {
 		return os.ErrPermission
 	}
-
-	f.ioLock.Lock()
-	defer f.ioLock.Unlock()
 
 	if err := f.enterWriteMode(); err != nil {
 		return err
